@@ -28,7 +28,7 @@ func TestC02Live(t *testing.T) {
 			// (timeouts of 3 s: the first packet comes 1.3 s after RECORD, later than one check period and below timeout - 1 s)
 			c.Transport, c.Mode, c.Media, c.PreludeMs, c.FirstDelayMs, c.TimeoutMs = "udp", "record", true, 3500, 1300, 3000
 		}
-		st, err := pbt.Safe(runLive, c)
+		st, err := pbt.SafeJ("C02", "live", runLive, c)
 		if st == nil {
 			st = &liveStats{}
 		}
